@@ -756,3 +756,26 @@ func c18ReplayMore(r *Run, rng *Rng, line string, w []string) {
 		}
 	}
 }
+
+// c18CellSet expands a rendered sqref ("s=<hex>") into its sorted set of cells.
+func c18CellSet(rendered string) string {
+	var cells []string
+	for _, part := range strings.Fields(unhx(strings.TrimPrefix(rendered, "s="))) {
+		q, err := xl.VerifRangeRefToCoordinates(part)
+		if err != nil {
+			c, ro, e2 := xl.CellNameToCoordinates(part)
+			if e2 != nil {
+				return rendered
+			}
+			q = []int{c, ro, c, ro}
+		}
+		for c := q[0]; c <= q[2]; c++ {
+			for ro := q[1]; ro <= q[3]; ro++ {
+				n, _ := xl.CoordinatesToCellName(c, ro)
+				cells = append(cells, n)
+			}
+		}
+	}
+	sort.Strings(cells)
+	return strings.Join(cells, " ")
+}
